@@ -72,6 +72,15 @@ EXTRA_PAIRS = [
     ("NC1", ["C02", "C09", "C10"]),
     ("TR1", ["C02", "C09"]),
     ("LS6", ["C02"]),
+    # --- round 7
+    ("MD1", ["C02"]),    # the resolved mode decides whether old contents survive (create-or-truncate must truncate)
+    ("MD3", ["C04"]), ("MD7", ["C04"]),   # a refused open must not have truncated / rewritten anything
+    ("NE1", ["C01", "C05", "C06", "C07"]),   # the recorded entry position decides which slot later flushes rewrite; free-slot reuse bounds directory growth
+    ("OR2", ["C08", "C11"]),   # a truncating open that fails must not leave a registered, handle-less open file
+    ("MT2", ["C10"]),    # a cluster count rounded up admits a cluster beyond the volume
+    ("EF1", ["C09"]),    # a flush that reports success although a write failed is not durable
+    ("LS3", ["C03", "C10"]),   # lookup and delete must agree on which entry a name denotes
+    ("MK1", ["C06"]), ("MD10", ["C01"]), ("SD18", ["C19"]), ("SD19", ["C12"]),
 ]
 EXTRA = {}
 for _k, _v in EXTRA_PAIRS:      # a rule may be listed several times (one line per reason): the lists add up
